@@ -8,7 +8,7 @@ import pymbolic.primitives as p
 
 from ..core import Failure, Prop, Stream
 from ..sexp import A, dumps, exc_to_sx, expr_to_sx, loads, q
-from ..syntax import flatten_assoc, lex_tokens
+from ..syntax import codes, flatten_assoc, lex_tokens, real_lex_raw
 from .c06 import extract
 
 
@@ -437,14 +437,204 @@ class Importer(Stream):
         return pl["text"]
 
 
+
+# {{{ strings through the lexer MODEL (PV/Model/Lexer.lean)
+
+class SkeletonStrings(Skeletons):
+    """the same population, but the STRING goes to the model (model lexer on the regenerated
+    table, then model parser) and is compared with `pymbolic.parse(string)`; the oracle is
+    Python's grouping as in `skeletons`"""
+    name = "skeleton-strings"
+
+    def request(self, pl):
+        return f"(parsestr 0 {codes(pl['text'])})"
+
+    def run_impl(self, pl):
+        import warnings
+
+        import pytools.lex
+        from pymbolic import parse
+        try:
+            with warnings.catch_warnings():
+                warnings.simplefilter("ignore")
+                r = parse(pl["text"])
+        except pytools.lex.ParseError:
+            return "(err ParseError)"
+        except pytools.lex.InvalidTokenError as ex:
+            return f"(err InvalidTokenError {ex.index})"
+        except RecursionError:
+            raise
+        except ValueError as ex:
+            return "(err FloatValueError)" if "float" in str(ex) else "(err ValueError)"
+        except Exception as ex:
+            return dumps(exc_to_sx(ex))
+        try:
+            return dumps(expr_to_sx(r))
+        except Exception as ex:
+            return f"(unencodable {type(ex).__name__})"
+
+    def agree(self, model, impl, pl):
+        if model in ("(err FloatValueError)", "(err AssertionError)") or model.startswith("(noclaim"):
+            return "ok" if model == impl else "trivial"
+        return Stream.agree(self, model, impl, pl)
+
+
+SHARED_NAMES = ["a", "b", "x1", "foo", "_t", "order", "android", "nothing", "iffy", "elsewhere", "e",
+                "E5", "j", "d", "i", "Tru", "T", "in_", "x_y", "A"]
+SHARED_INTS = ["0", "1", "7", "10", "42", "1000000", "12345678901234567890"]
+SHARED_FLOATS = ["1.5", "0.5", "2.", ".5", "1e5", "1E5", "1.5e-3", "1e+5", "0.0", "10.25", "3.e2",
+                 "1e-07", "6.02e23", "12.", ".125"]
+SHARED_OPS = ["+", "-", "*", "/", "//", "%", "**", "<<", ">>", "&", "|", "~", "^", "<", ">", "<=", ">=",
+              "==", "!=", "(", ")", "[", "]", ",", ".", ":", "="]
+SHARED_KW = ["and", "or", "not", "if", "else", "True", "False"]
+KW_TAGS = {"and": "and", "or": "or", "not": "not", "if": "if", "else": "else", "True": "True",
+           "False": "False"}
+
+
+def python_tokens(s):
+    """token strings of Python's own tokenizer (names, numbers, operators); None when it rejects
+    the string or when a number is directly followed by a name or number (`0a`, `1.5a`, `1if`: the
+    tokenize module splits them, the language does not accept them)"""
+    import io
+    import tokenize
+    import warnings
+    out = []
+    prev = None
+    try:
+        with warnings.catch_warnings():
+            warnings.simplefilter("ignore")
+            for t in tokenize.generate_tokens(io.StringIO(s).readline):
+                if t.type in (tokenize.NAME, tokenize.NUMBER, tokenize.OP):
+                    if (prev is not None and prev.type == tokenize.NUMBER and prev.end == t.start
+                            and t.type in (tokenize.NAME, tokenize.NUMBER)):
+                        return None
+                    out.append(t.string)
+                    prev = t
+                elif t.type == tokenize.ERRORTOKEN:
+                    return None
+    except Exception:
+        return None
+    return out
+
+
+def token_class(t):
+    if t in SHARED_KW:
+        return "keyword:" + t
+    if t in SHARED_OPS:
+        return "operator"
+    if t[0].isalpha() or t[0] == "_":
+        return "name"
+    return "int" if t.isdigit() else "float"
+
+
+class LexShared(Stream):
+    """token sequences of the syntax shared with Python, joined with random spacing: the model lexer
+    vs `pytools.lex.lex` (correspondence), and the real lexer vs PYTHON'S tokenizer (oracle): the
+    string must be split into the same token strings, numbers lexed as int / float, names as
+    identifiers, keywords under their own tags.  Only strings that Python's tokenizer splits into
+    exactly the intended tokens count."""
+    name = "lex-shared"
+
+    def cases(self, rng, tier):
+        def tok():
+            k = rng.random()
+            if k < 0.3:
+                return rng.choice(SHARED_NAMES)
+            if k < 0.4:
+                return rng.choice(SHARED_INTS)
+            if k < 0.55:
+                return rng.choice(SHARED_FLOATS)
+            if k < 0.9:
+                return rng.choice(SHARED_OPS)
+            return rng.choice(SHARED_KW)
+
+        def wordlike(t):
+            return t[0].isalnum() or t[0] in "_." and len(t) > 1
+
+        def join(ts):
+            out = []
+            for i, t in enumerate(ts):
+                if i:
+                    prev = ts[i - 1]
+                    if (wordlike(prev) or prev[-1].isalnum()) and (wordlike(t) or t[0].isalnum()):
+                        out.append(rng.choice([" ", " ", "  ", "\t"]))
+                    else:
+                        out.append(rng.choice(["", "", " ", "  "]))
+                out.append(t)
+            return "".join(out)
+        # every ordered pair of tokens, with and without a space
+        allt = SHARED_NAMES[:3] + SHARED_INTS[:3] + SHARED_FLOATS[:6] + SHARED_OPS + SHARED_KW
+        for a in allt:
+            for b in allt:
+                yield {"toks": [a, b], "text": a + " " + b, "kind": "pair"}
+                yield {"toks": [a, b], "text": a + b, "kind": "pair-adjacent"}
+        for _ in range(1500 if tier == "quick" else 40000):
+            ts = [tok() for _ in range(rng.randint(1, 9))]
+            yield {"toks": ts, "text": join(ts), "kind": "random"}
+        yield {"toks": ["Trueish"], "text": "Trueish", "kind": "directed"}
+        yield {"toks": ["a", "+", "Falsehood"], "text": "a + Falsehood", "kind": "directed"}
+
+    def request(self, pl):
+        return f"(lexraw {codes(pl['text'])})"
+
+    def run_impl(self, pl):
+        return real_lex_raw(pl["text"])
+
+    def oracle(self, pl):
+        import pytools.lex
+        from pymbolic.parser import Parser
+        want = pl["toks"]
+        if python_tokens(pl["text"]) != want:
+            return None          # not a string of the shared syntax with these tokens
+        try:
+            lexed = [(t, x) for t, x, _ in pytools.lex.lex(Parser.lex_table, pl["text"])
+                     if t != "whitespace"]
+        except pytools.lex.InvalidTokenError as ex:
+            return Failure("lex-rejects-shared", f"{pl['text']!r}: InvalidTokenError at {ex.index}", pl)
+        got = [x for _, x in lexed]
+        if got != want:
+            i = next((k for k, (g, w) in enumerate(zip(got, want)) if g != w), min(len(got), len(want)))
+            w = want[i] if i < len(want) else want[-1]
+            cls = "True-prefix" if w.startswith(("True", "False")) and w not in SHARED_KW else token_class(w)
+            return Failure("lex-differs-from-python:" + cls,
+                           f"{pl['text']!r}: lexer gives {got}, Python's tokenizer {want}", pl)
+        for (tag, x) in lexed:
+            c = token_class(x)
+            ok = {"name": tag == "identifier", "int": tag == "int", "float": tag == "float",
+                  "operator": True}.get(c)
+            if ok is None:
+                ok = tag == KW_TAGS[x]
+            if not ok:
+                return Failure("lex-tag:" + c, f"{pl['text']!r}: {x!r} lexed as {tag}", pl)
+        return None
+
+    def shrink(self, pl):
+        ts = pl["toks"]
+        for i in range(len(ts)):
+            t2 = ts[:i] + ts[i + 1:]
+            if t2:
+                yield {"toks": t2, "text": " ".join(t2), "kind": pl["kind"]}
+
+    def nontrivial_key(self, pl, model, impl):
+        return pl["text"] if python_tokens(pl["text"]) == pl["toks"] else None
+
+    def stats(self, pl, mo, io, acc):
+        acc[pl["kind"]] = acc.get(pl["kind"], 0) + 1
+        if python_tokens(pl["text"]) == pl["toks"]:
+            acc["shared"] = acc.get("shared", 0) + 1
+
+# }}}
+
+
 PROP = Prop(
     id="C07",
     title="The parser reads the syntax it shares with Python the way Python does",
     lean_targets=["PV.Properties.C07"],
     extractors=[extract],
-    streams=[Skeletons(), Importer()],
+    streams=[Skeletons(), Importer(), SkeletonStrings(), LexShared()],
     trusted_base=["Lean 4.33 kernel; axioms propext, Classical.choice, Quot.sound only",
                   "CPython's ast.parse is the reference for Python's grouping (harness/props/c07.py: py_tree)",
-                  "the real lexer supplies the tokens"],
+                  "the lexer is modelled (PV/Model/Lexer.lean, regenerated rule table); Python's own "
+                  "tokenizer is the reference for the token strings of the shared syntax"],
     design_ref="DESIGN.md §4 C07",
 )
